@@ -27,6 +27,12 @@ pub struct Shim {
     pub last_size: usize,
     /// number of successful requests that returned a *new* block address (alloc or realloc)
     pub moves: usize,
+    /// once a request was refused inside the window, any further request is a violation
+    pub forbid_after_fail: bool,
+    pub fails_at_open: usize,
+    pub reqs_at_open: usize,
+    /// 0: the solver chooses per request; k > 0: exactly the k-th request inside the window is refused
+    pub fail_at: usize,
 }
 
 pub static mut S: Shim = Shim {
@@ -41,6 +47,10 @@ pub static mut S: Shim = Shim {
     align: [0; MAXB],
     last_size: 0,
     moves: 0,
+    forbid_after_fail: false,
+    fails_at_open: 0,
+    reqs_at_open: 0,
+    fail_at: 0,
 };
 
 unsafe extern "C" {
@@ -56,6 +66,16 @@ fn choose_fail() -> bool {
 #[cfg(not(kani))]
 fn choose_fail() -> bool {
     false
+}
+
+unsafe fn decide_fail() -> bool {
+    unsafe {
+        if S.fail_at == 0 {
+            choose_fail()
+        } else {
+            S.reqs - S.reqs_at_open == S.fail_at
+        }
+    }
 }
 
 unsafe fn find(p: *mut u8) -> usize {
@@ -89,12 +109,13 @@ pub unsafe fn shim_alloc(layout: Layout) -> *mut u8 {
     unsafe {
         S.reqs += 1;
         assert!(!S.forbid, "[shim] allocator request inside a no-request region");
+        assert!(!(S.forbid_after_fail && S.window && S.fails > S.fails_at_open), "[shim] allocator request after a refused request, before the panic");
         assert!(layout.size() > 0, "[shim] zero-sized request");
         if layout.size() > LIMIT {
             S.fails += 1;
             return core::ptr::null_mut();
         }
-        if S.window && choose_fail() {
+        if S.window && decide_fail() {
             S.fails += 1;
             return core::ptr::null_mut();
         }
@@ -123,6 +144,7 @@ pub unsafe fn shim_realloc(ptr: *mut u8, layout: Layout, new_size: usize) -> *mu
     unsafe {
         S.reqs += 1;
         assert!(!S.forbid, "[shim] allocator request inside a no-request region");
+        assert!(!(S.forbid_after_fail && S.window && S.fails > S.fails_at_open), "[shim] allocator request after a refused request, before the panic");
         let slot = find(ptr);
         assert!(slot < MAXB, "[shim] realloc of a block that is not live");
         assert!(S.size[slot] == layout.size(), "[shim] realloc with a size different from the allocation");
@@ -132,7 +154,7 @@ pub unsafe fn shim_realloc(ptr: *mut u8, layout: Layout, new_size: usize) -> *mu
             S.fails += 1;
             return core::ptr::null_mut();
         }
-        if S.window && choose_fail() {
+        if S.window && decide_fail() {
             S.fails += 1;
             return core::ptr::null_mut();
         }
@@ -164,7 +186,14 @@ pub fn snap() -> Snap {
     unsafe { Snap { reqs: S.reqs, frees: S.frees, live: S.live, fails: S.fails, moves: S.moves } }
 }
 pub fn open_window() {
-    unsafe { S.window = true }
+    unsafe {
+        S.window = true;
+        S.fails_at_open = S.fails;
+        S.reqs_at_open = S.reqs;
+    }
+}
+pub fn set_fail_at(k: usize) {
+    unsafe { S.fail_at = k }
 }
 pub fn close_window() {
     unsafe { S.window = false }
